@@ -139,6 +139,8 @@ def check(tier, seed):
             except GraphQLSyntaxError as e:
                 stage = "syntax"
                 w = dict(w, exc=type(e).__name__, exc_position=e.position, len=len(text))
+            except Exception:
+                stage = "validation"      # the validator itself crashed (C05's subject): the request below reports what the entry point does
             try:
                 resp = res.response()
             except Exception as e:
